@@ -436,7 +436,7 @@ def valid_introspection():
     from graphql import build_schema, introspection_from_schema
 
     s = build_schema("type Query { a(i: In = {x: 1}): Int }\ninput In { x: Int! = 3, y: [String] }\nenum E { A B }")
-    return json.loads(json.dumps(introspection_from_schema(s, descriptions=False)))
+    return json.loads(json.dumps(introspection_from_schema(s)))
 
 
 def outcome_cases(ctx):
@@ -675,12 +675,27 @@ def sdl_inputs(sdl):
     return schema, out, info
 
 
+_MODEL_QUERY = []
+
+
+def model_query():
+    """The introspection query text for the option set the model's request_of carries (K1 on the wire)."""
+    from graphql import get_introspection_query
+
+    if not _MODEL_QUERY:
+        r = model.call(ENG, I(Sym("request"), [], "http://x/", [], True))
+        names = ["descriptions", "specified_by_url", "directive_is_repeatable", "schema_description", "input_value_deprecation"]
+        flags = {n: v == "t" for n, v in zip(names, r[4])}
+        _MODEL_QUERY.append((get_introspection_query(**flags), flags))
+    return _MODEL_QUERY[0][0]
+
+
 def k2_via_introspection(run, schema, minputs, model_via):
     """build_client_schema(introspection(S)) vs Model via_introspection: names kept, nodes gone, values kept."""
     from graphql import GraphQLInputObjectType, Undefined, build_client_schema, get_introspection_query, graphql_sync
 
-    # exactly the query the code sends (descriptions off, input_value_deprecation left at its default)
-    data = graphql_sync(schema, get_introspection_query(descriptions=False)).data
+    # exactly the query the model says the code sends (since b147fbc: every option on)
+    data = graphql_sync(schema, model_query()).data
     cs = build_client_schema(data, assume_valid=True)
     for (tname, fields) in model_via:
         t = cs.type_map.get(tname)
@@ -695,27 +710,8 @@ def k2_via_introspection(run, schema, minputs, model_via):
             if f.ast_node is not None:
                 run.broken("K2 via_introspection", f"{tname}.{fname} has an ast_node after introspection")
             a, b = src.fields[fname].default_value, f.default_value
-            # values are kept, except that keys naming deprecated fields of nested input objects go with those
-            # fields (a consequence of F19-deprecated-input-fields; no theorem uses the value when such fields exist)
-            if a is not Undefined:
-                a = strip_deprecated(a, src.fields[fname].type)
             if (a is Undefined) != (b is Undefined) or (a is not Undefined and a != b):
                 run.broken("K2 via_introspection", f"{tname}.{fname}: default value {a!r} became {b!r}")
-
-
-def strip_deprecated(value, type_):
-    from graphql import GraphQLInputObjectType, GraphQLList, GraphQLNonNull
-
-    if isinstance(type_, GraphQLNonNull):
-        return strip_deprecated(value, type_.of_type)
-    if value is None:
-        return None
-    if isinstance(type_, GraphQLList):
-        return [strip_deprecated(v, type_.of_type) for v in value] if isinstance(value, list) else value
-    if isinstance(type_, GraphQLInputObjectType) and isinstance(value, dict):
-        return {k: strip_deprecated(v, type_.fields[k].type) for k, v in value.items()
-                if k in type_.fields and type_.fields[k].deprecation_reason is None}
-    return value
 
 
 def loosely_equal_default(a, b):
@@ -780,7 +776,7 @@ def scenario_input(ctx, seed, i, tls):
     hv = rng.choice(["$C19_TOKEN", "$$C19_TOKEN", "Bearer literal"])
     sc["introspection"] = [
         {"headers": {"Authorization": hv, "X-Plain": "v$x"}, "env": {"C19_TOKEN": f"tok-{seed}"}},
-        {"force_descriptions": True},
+        {"omit_descriptions": True},
     ]
     if tls and i % 8 == 0:
         sc["introspection"] += [{"tls": tls, "verify": False}, {"tls": tls, "verify": True}, {"tls": tls}]
@@ -801,13 +797,15 @@ def corpus_scenarios():
          "defs": ["input In {\n  nn: Int! = 7\n  d: Int = 5\n  s: String! = \"x\"\n  l: [Int!] = [1, 2]\n}", "type Query {\n  f(i: In): Int\n}"],
          "features": feat(input_defaults=4, nonnull_defaults=2, default_kinds=["int", "list", "string"])},
         {"seed": "corpus-deprecated", "customs": [], "ops": ops,
-         "defs": ["input In {\n  a: Int\n  old: Int @deprecated\n}", "type Query {\n  f(i: In): Int\n}"],
-         "features": feat(input_deprecated=1)},
+         "defs": ["input In {\n  a: Int\n  old: Int @deprecated\n  o: All = {x: 1}\n}", "type Query {\n  f(i: In): Int\n}",
+                  "input All {\n  x: Int @deprecated\n}"],
+         "features": feat(input_deprecated=2, inputs=2, definitions=3, input_defaults=1, default_kinds=["object"])},
     ]
     for sc in out:
         # former F19-dir-suffix: directories named like schema files, at two levels
-        sc["layouts"] = [[("v1.graphql/schema.graphql", [0]), ("v1.graphql/x.gql/q.graphqls", [1])],
-                         [("a.gql", [1]), ("old.graphqls/b.graphql", [0])]]
+        rest = list(range(2, len(sc["defs"])))
+        sc["layouts"] = [[("v1.graphql/schema.graphql", [0] + rest), ("v1.graphql/x.gql/q.graphqls", [1])],
+                         [("a.gql", [1]), ("old.graphqls/b.graphql", rest + [0])]]
         sc["noise"] = ["README.md"]
         sc["introspection"] = [{"headers": {"Authorization": "$C19_TOKEN"}, "env": {"C19_TOKEN": "tok"}}]
     return out
@@ -875,7 +873,8 @@ def k_scenarios(ctx, tmp):
         # meanwhile, in this process: type map of every layout (model vs build_ast_schema), field decisions
         inproc = [inprocess_scenario(ctx, sc, tmp, si) for si, sc in enumerate(scs)]
         results = [f.result() for f in futs]
-    want_query = get_introspection_query(descriptions=False)
+    want_query = model_query()
+    run.extra["introspection_query_options"] = _MODEL_QUERY[0][1]
     for sc, res, (minfo, dec) in zip(scs, results, inproc):
         feat = sc["features"]
         for k in ("descriptions", "extensions", "custom_roots", "mutation"):
@@ -938,7 +937,7 @@ def k_scenarios(ctx, tmp):
             run.count()
             replay = {**base_replay, "introspection": {k: v for k, v in intro.items() if k != "tls"}, "tls": bool(intro.get("tls"))}
             kind = ("tls-verify-" + str(intro.get("verify", "default"))) if intro.get("tls") else \
-                   ("server-adds-descriptions" if intro.get("force_descriptions") else "plain+headers")
+                   ("server-omits-descriptions" if intro.get("omit_descriptions") else "plain+headers")
             run.dist("introspection_kind", kind)
             expect_tls_fail = bool(intro.get("tls")) and intro.get("verify", True)
             if expect_tls_fail:
@@ -948,13 +947,6 @@ def k_scenarios(ctx, tmp):
                                   f"({src['error'] and src['error']['type']})", replay)
                 continue
             if src["error"]:
-                # K1: the model says which schemas lose a whole input class (all fields deprecated -> empty class body)
-                if minfo.get("__empty_class_via__") and "InvalidInput" in src["error"]["type"]:
-                    run.finding("F19-deprecated-input-fields",
-                                f"{key}: every field of an input type is deprecated -> empty class via introspection -> "
-                                f"generation dies ({src['error']['type']})", {**replay, "error": src["error"]})
-                    run.dist("finding_inputs", "F19-deprecated-input-fields(empty class, generation dies)")
-                    continue
                 run.violation(f"{key}: generation through introspection failed: {src['error']['type']}: {src['error']['msg']}",
                               {**replay, "error": src["error"]})
                 continue
@@ -977,8 +969,8 @@ def k_scenarios(ctx, tmp):
                         if got.get(k.lower()) != v:
                             run.violation(f"{key}: header {k} sent as {got.get(k.lower())!r}, configured {intro['headers'][k]!r} "
                                           f"(resolved {v!r})", {**replay, "sent": log[0]["headers"]})
-                    if mreq[4] != "f" or "description" in log[0]["query"]:
-                        run.broken("K1 request", "descriptions requested")
+                    if "includeDeprecated: true" not in log[0]["query"].split("inputFields", 1)[-1][:40]:
+                        run.violation(f"{key}: deprecated input fields are not requested", {**replay, "query": log[0]["query"][:600]})
                 if got.get("content-type") != "application/json":
                     run.violation(f"{key}: content-type {got.get('content-type')!r}", {**replay, "sent": log[0]["headers"]})
             ip = src["package"]
@@ -1069,14 +1061,14 @@ def compare_inputs(run, sdl_mod, intro_mod, info, dec, replay, key):
         return not field["required"] and field["default"] is not None and (field["default"] != "None" or lit_null)
 
     # the property's oracle on the two packages
-    problems = {"defaults": [], "F19-deprecated-input-fields": [], "other": []}
+    problems = {"defaults": [], "deprecated": [], "other": []}
     for t, cls in sc_.items():
         ifields = {f["wire"]: f for f in ic_[t]["fields"]}
         for f in cls["fields"]:
             meta = info.get((t, f["wire"]), {})
             g = ifields.get(f["wire"])
             if g is None:
-                (problems["F19-deprecated-input-fields"] if meta.get("deprecated") else problems["other"]).append(
+                (problems["deprecated"] if meta.get("deprecated") else problems["other"]).append(
                     f"{t}.{f['wire']} missing via introspection")
                 continue
             if g["ann"] != f["ann"] or g["py"] != f["py"]:
@@ -1090,7 +1082,7 @@ def compare_inputs(run, sdl_mod, intro_mod, info, dec, replay, key):
         extra = set(ifields) - {f["wire"] for f in cls["fields"]}
         if extra:
             problems["other"].append(f"{t}: fields only via introspection {sorted(extra)}")
-    failing = problems["defaults"] + problems["other"]
+    failing = problems["defaults"] + problems["deprecated"] + problems["other"]
     # K1: generated fields vs the model's decisions, both routes
     for route, classes, dd in (("SDL", sc_, d_sdl), ("introspection", ic_, d_via)):
         for t, cls in classes.items():
@@ -1104,10 +1096,10 @@ def compare_inputs(run, sdl_mod, intro_mod, info, dec, replay, key):
                     run.violation(f"K1 {key} {route} route {t}.{fn}: generated {f} vs model decision {dd[t][fn]}"
                                   + ("; property fails: " + "; ".join(failing[:4]) if failing else ""),
                                   replay, found_input=bool(failing))
-    if problems["F19-deprecated-input-fields"]:
-        run.finding("F19-deprecated-input-fields", "; ".join(problems["F19-deprecated-input-fields"][:6]),
-                    {**replay, "problems": problems["F19-deprecated-input-fields"]})
-        run.dist("finding_inputs", "F19-deprecated-input-fields")
+    if problems["deprecated"]:
+        # former class F19-deprecated-input-fields (fixed by b147fbc): a regression is a violation
+        run.violation(f"{key}: deprecated input fields are lost through introspection: " + "; ".join(problems["deprecated"][:6]),
+                      {**replay, "problems": problems["deprecated"]})
     if problems["defaults"]:
         # former class F19-input-defaults (fixed by 4077122): a regression is a violation
         run.violation(f"{key}: input defaults differ between SDL and introspection: " + "; ".join(problems["defaults"][:6]),
